@@ -466,10 +466,10 @@ pub fn run(cx: &mut Ctx) {
             let len = if cfg!(miri) { rng.range(5, 20) } else if many { rng.range(300, 700) } else { rng.range(20, 300) };
             let unicode = cfg!(miri) || rng.chance(2, 3);
             let be = rng.bool();
-            let mut alphabet = vec!['\\', 'n', '\n', '\r', 'a', 'あ', '\u{a5}', 'ｱ'];
+            let mut alphabet = vec!['\\', 'n', '\n', '\r', 'a', 'あ', '\u{a5}', 'ｱ', 'r', 't'];
             if unicode && !cfg!(miri) && rng.chance(1, 3) {
                 // other line-breaking characters are ordinary text: only LF is escaped
-                alphabet.extend(['\u{2028}', '\u{2029}', '\u{85}', '\u{b}', '\u{c}']);
+                alphabet.extend(['\u{2028}', '\u{2029}', '\u{85}', '\u{b}', '\u{c}', '\u{feff}', '\u{fffe}']);
             }
             let mut h = Vec::new();
             for _ in 0..len {
